@@ -16,6 +16,7 @@ import (
 	modzip "golang.org/x/mod/zip"
 	"pgregory.net/rapid"
 
+	"verif/harness/internal/gen"
 	"verif/harness/internal/pbt"
 	"verif/harness/internal/ref/pathref"
 	"verif/harness/internal/ref/semverref"
@@ -24,13 +25,23 @@ import (
 )
 
 func init() {
-	pbt.Describe("cases = module id (mostly a valid path with matching canonical version incl. /vN, gopkg.in, +incompatible, pseudo-versions; sometimes invalid, mismatched or non-canonical) x a file list of 0-25 entries whose names come from a tree-shaped pool (shared directory prefixes so that vendor, nested-module, file/directory clash and case-fold interactions actually occur; unclean, absolute, reserved, Unicode and duplicate names mixed in) with modes regular/symlink/dir/device/pipe, honest small contents, a root go.mod of 15 kinds (absent, go <1.24, >=1.24, no go line, unknown directives, syntax errors), and optional header-only huge sizes that make the list fail the check. Oracle: Create succeeds iff the id is valid and the file check reports no error; on success CheckZip reports no invalid entry and no error, every entry name is prefix + clean valid path, no two names are equal under case folding, go.mod only at the root in lower case, Unzip into a fresh directory succeeds, and the extracted tree (walked by the harness) is exactly {(p, content(p)) : p in CheckFiles.Valid}, both inclusions, byte for byte; CheckFiles.Valid/Omitted/Invalid equal the reference classifier. Non-trivial: Create succeeded with >=2 files and at least one input entry was omitted or invalid-by-collision; or Create failed for a reason other than the module id. Distinct by JSON rendering.",
+	pbt.Describe("cases = module id (mostly a valid path with matching canonical version incl. /vN, gopkg.in, +incompatible, pseudo-versions; sometimes invalid, mismatched or non-canonical) x a file list of 0-25 entries whose names come from a tree-shaped pool (shared directory prefixes so that vendor, nested-module, file/directory clash and case-fold interactions actually occur; unclean, absolute, reserved, Unicode and duplicate names mixed in) with modes regular/symlink/dir/device/pipe, honest small contents, a root go.mod of 15 kinds (absent, go <1.24, >=1.24, no go line, unknown directives, syntax errors), and optional header-only huge sizes that make the list fail the check. Oracle: Create succeeds iff the id is valid and the file check reports no error; on success CheckZip reports no invalid entry and no error, every entry name is prefix + clean valid path, no two names are equal under case folding, go.mod only at the root in lower case, Unzip into a fresh directory succeeds, and the extracted tree (walked by the harness) is exactly {(p, content(p)) : p in CheckFiles.Valid}, both inclusions, byte for byte; CheckFiles.Valid/Omitted/Invalid equal the reference classifier. Non-trivial: Create succeeded with >=2 files and at least one input entry was omitted or invalid-by-collision; or Create failed for a reason other than the module id. Distinct by JSON rendering. 6% of the lists contain one file that fails while being read (I/O error after half of its content) or cannot be opened: if that file is one the archive must contain, Create must not succeed.",
 		"zipref reference classifier (from the package documentation and the anchored decision order)", "path elements stay below 200 bytes (file-system limit, not a zip rule)", "files report their true size, except header-only sizes above the limits, which always make the list fail the check")
 }
 
 func TestMain(m *testing.M) { pbt.Main(m) }
 
-func genCase(t *rapid.T) zipgen.ListCase { return zipgen.GenList(t, true) }
+func genCase(t *rapid.T) zipgen.ListCase {
+	c := zipgen.GenList(t, true)
+	if gen.Chance(t, 6, "iofail") && len(c.Entries) > 0 {
+		// one file cannot be read to its end, or cannot be opened at all (not the root go.mod, which the file
+		// check itself reads leniently)
+		if e := &c.Entries[gen.Uniform(t, len(c.Entries), "iofailwhich")]; e.Mode == "file" && e.Name != "go.mod" {
+			e.Read = []string{"errmid", "erropen"}[gen.Uniform(t, 2, "iofailhow")]
+		}
+	}
+	return c
+}
 
 func idValid(p, v string) bool {
 	c := semverref.Canonical(v)
@@ -112,10 +123,35 @@ func check(c zipgen.ListCase) pbt.Result {
 	}
 	m := module.Version{Path: c.Path, Version: c.Version}
 	var buf bytes.Buffer
+	var pathsBefore []string
+	for _, f := range files {
+		pathsBefore = append(pathsBefore, f.Path())
+	}
 	err := modzip.Create(&buf, m, files)
+	for i, f := range files {
+		if f.Path() != pathsBefore[i] {
+			r.Fail = pbt.Failf("create-reorders-files", "Create reordered the caller's file list: position %d was %q, is %q", i, pathsBefore[i], f.Path())
+			return r
+		}
+	}
 	idOK := idValid(c.Path, c.Version)
 	listOK := cf.SizeError == nil && len(cf.Invalid) == 0
 	r.Classes = []string{fmt.Sprintf("id-valid=%v list-ok=%v", idOK, listOK)}
+	// a file that goes into the archive and cannot be read: the archive cannot hold it byte for byte, so
+	// creation must not succeed
+	for i, cl := range want.Classes {
+		if e := c.Entries[i]; cl == zipref.Valid && (e.Read == "errmid" || e.Read == "erropen") {
+			r.Classes = append(r.Classes, "a valid file fails to read")
+			if err == nil {
+				r.Fail = pbt.Failf("create-swallows-io-error", "Create succeeded although reading %q failed (%s)", e.Name, e.Read)
+				return r
+			}
+			if idOK && listOK {
+				r.NonTrivial = true
+				return r
+			}
+		}
+	}
 	if (err == nil) != (idOK && listOK) {
 		r.Fail = pbt.Failf("create-iff", "Create err=%v, but module id valid=%v and file check ok=%v (invalid %q, size error %v)", err, idOK, listOK, errPaths(cf.Invalid), cf.SizeError)
 		return r
